@@ -20,7 +20,7 @@ fn histex_check(prop: &str, tier: &str, plans: &[HxPlan], owned: &[&str], note: 
 fn histex_part(run: &mut Run, tier: &str, plans: &[HxPlan], owned: &[&str], note: &str) {
     let (mut states, mut trans) = (0u64, 0u64);
     let mut fams = vec![];
-    let cap_total: f64 = std::env::var("VERIF_CAP_SECS").ok().and_then(|s| s.parse().ok()).unwrap_or(if tier == "quick" { 45.0 } else if crate::common::is_sub() { 300.0 } else { 600.0 });
+    let cap_total: f64 = std::env::var("VERIF_CAP_SECS").ok().and_then(|s| s.parse().ok()).unwrap_or(if tier == "quick" && crate::common::is_sub() { 15.0 } else if tier == "quick" { 45.0 } else if crate::common::is_sub() { 300.0 } else { 600.0 });
     let t_start = std::time::Instant::now();
     let mut exhaustive = true;
     let mut decoder_disagreements = 0u64;
@@ -132,7 +132,7 @@ pub fn run_check(prop: &str, tier: &str) -> i32 {
             histex_part(&mut run, tier, &[hp("auth", 3, 4), hp("dis", 3, 4)], &[own], HX);
             run.finish()
         }
-        "C03" => histex_check(prop, tier, &[hp("edit", 4, 6), hp("hyb", 3, 5), hp("emptyh", 6, 8)], &["C03."], HX),
+        "C03" => histex_check(prop, tier, &[hp("hyb", 3, 5), hp("emptyh", 6, 8), hp("edit", 4, 6)], &["C03."], HX),
         "C04" => {
             let mut run = Run::new(prop, tier, "model_checking");
             histex_part(&mut run, tier, &[hp("rot", 4, 5), hp("disrot", 4, 5), hp("rotsnap", 4, 5)], &["C04."], HX);
